@@ -645,6 +645,8 @@ def check_C14(ctx):
             m['filter'] = True; m['id'] += '/filter'; m['label'] += '/filter'
     scen += mixes
     scen += vt.tlc_generate(ctx, 'GenDoc', 'C18', 12 if ctx.quick() else 100)
+    # concurrent runs generating their capture filter programs at the same time (each for its own tuple)
+    scen += [{'id': 'C14/bpfgen/%d' % g, 'label': 'filters/concurrent-generation/%d' % g, 'kind': 'bpfgen', 'extra': {'g': g, 'n': 200}} for g in (2, 8)]
     by = {s['id']: s for s in scen}
     races = {}
     rounds = [('2', 1), ('8', 2)] if ctx.quick() else [('1', 1), ('2', 2), ('4', 3), ('8', 4), ('16', 5)]
